@@ -22,11 +22,14 @@ import (
 	"fmt"
 	"os"
 	"path/filepath"
+	"regexp"
+	"runtime"
 	"sort"
 	"strconv"
 	"strings"
 	"sync"
 	"testing"
+	"time"
 
 	"github.com/enbility/spine-go/api"
 	"github.com/enbility/spine-go/model"
@@ -106,15 +109,43 @@ func (r *tkEvents) take() []string {
 }
 
 type tkWorld struct {
-	l     *spine.DeviceLocal
-	cl    api.FeatureLocalInterface
-	srv   map[string]*model.FeatureAddressType // local server feature per local entity "1".."4"
-	rds   map[int]api.DeviceRemoteInterface    // latest device object per connection number
-	dev   map[int]int                          // device address number announced by connection k
-	alive map[int]bool
-	ctr   map[int]uint64
-	ev    *tkEvents
-	base  int
+	l          *spine.DeviceLocal
+	cl         api.FeatureLocalInterface
+	srv        map[string]*model.FeatureAddressType // local server feature per local entity "1".."4"
+	rds        map[int]api.DeviceRemoteInterface    // latest device object per connection number
+	dev        map[int]int                          // device address number announced by connection k
+	alive      map[int]bool
+	ctr        map[int]uint64
+	ev         *tkEvents
+	base       int
+	wr         map[int]*h.W   // writer of the current connection k
+	old        []tkOldWriter  // writers of removed connections
+	vals       map[string]int // canonical JSON of a written limit list -> value id
+	valN       int
+	last       map[string]int // SPEC: value id of the last write the SPEC accepted, per local server feature address
+	everShared bool           // two connected devices announced one address at some point of this history
+	// pending write approvals: local server features [3] and [4] have an approval callback (long timeout: no timer fires)
+	cbMu   sync.Mutex
+	cbMsgs []*api.Message
+	appr   []*tkAppr   // every write the approval callback has received in this history, in order
+	epoch  map[int]int // number of connections SKI k has had
+	pw     map[int]int // approval-bound writes of the current connection of k (their counters restart with the connection)
+}
+
+// tkAppr: a write that waits (or waited) for the application's verdict, with the SPEC's view of it
+type tkAppr struct {
+	msg      *api.Message
+	k, epoch int
+	ctr      uint64
+	ent      string
+	se       string
+	live     bool   // SPEC: still pending by the property statement
+	why      string // SPEC: why not
+}
+
+type tkOldWriter struct {
+	k int
+	w *h.W
 }
 
 func tkDev(d int) string { return fmt.Sprintf("dev%d", d) }
@@ -151,7 +182,8 @@ func tkTree(dev string, state *model.NetworkManagementStateChangeType, ents []st
 }
 
 func newTkWorld(ev *tkEvents, base int) *tkWorld {
-	w := &tkWorld{srv: map[string]*model.FeatureAddressType{}, rds: map[int]api.DeviceRemoteInterface{}, dev: map[int]int{}, alive: map[int]bool{}, ctr: map[int]uint64{}, ev: ev, base: base}
+	w := &tkWorld{srv: map[string]*model.FeatureAddressType{}, rds: map[int]api.DeviceRemoteInterface{}, dev: map[int]int{}, alive: map[int]bool{}, ctr: map[int]uint64{}, ev: ev, base: base,
+		wr: map[int]*h.W{}, vals: map[string]int{}, last: map[string]int{}, epoch: map[int]int{}, pw: map[int]int{}}
 	l := spine.NewDeviceLocal("b", "m", "s", "c", "HEMS", model.DeviceTypeTypeEnergyManagementSystem, model.NetworkManagementFeatureSetTypeSmart)
 	for i := 1; i <= 4; i++ {
 		e := spine.NewEntityLocal(l, model.EntityTypeTypeCEM, spine.NewAddressEntityType([]uint{uint(i)}), 0)
@@ -159,6 +191,14 @@ func newTkWorld(ev *tkEvents, base int) *tkWorld {
 		f := e.GetOrAddFeature(model.FeatureTypeTypeLoadControl, model.RoleTypeServer)
 		f.AddFunctionType(model.FunctionTypeLoadControlLimitListData, true, true)
 		w.srv[strconv.Itoa(i)] = f.Address()
+		if i >= 3 {
+			f.SetWriteApprovalTimeout(10 * time.Minute)
+			_ = f.AddWriteApprovalCallback(func(m *api.Message) {
+				w.cbMu.Lock()
+				w.cbMsgs = append(w.cbMsgs, m)
+				w.cbMu.Unlock()
+			})
+		}
 		if i == 1 {
 			w.cl = e.GetOrAddFeature(model.FeatureTypeTypeLoadControl, model.RoleTypeClient)
 		}
@@ -173,9 +213,12 @@ func (w *tkWorld) inject(k int, d model.DatagramType) {
 }
 
 func (w *tkWorld) connect(k, d int) {
-	w.l.SetupRemoteDevice(tkSki(k), &h.W{})
+	w.wr[k] = &h.W{}
+	w.l.SetupRemoteDevice(tkSki(k), w.wr[k])
 	w.rds[k] = w.l.RemoteDeviceForSki(tkSki(k))
 	w.dev[k], w.alive[k], w.ctr[k] = d, true, 100
+	w.epoch[k]++
+	w.pw[k] = 0
 	cl := model.CmdClassifierTypeReply
 	w.inject(k, model.DatagramType{Header: model.HeaderType{AddressSource: h.FA(tkDev(d), []uint{0}, 0), AddressDestination: h.FA("HEMS", []uint{0}, 0),
 		MsgCounter: util.Ptr(model.MsgCounterType(1)), MsgCounterReference: util.Ptr(model.MsgCounterType(1)), CmdClassifier: &cl},
@@ -315,7 +358,12 @@ func tkWithout(l []string, drop func(string) bool) (kept, gone []string) {
 	return
 }
 
-type tkStats struct{ grants, grantOk, drops, dropsNontrivial, sharedOps, ops int }
+type tkStats struct {
+	grants, grantOk, drops, dropsNontrivial, sharedOps, ops int
+	served, servedWriteOk, servedNotified, servedSubOk      int
+	pwrites, pwritesPending, verdicts, verdictsTaken        int
+	injectedDrops, injectedFired, insideWindow              int
+}
 
 // runTkHistory executes ops on a fresh world, compares with the driver (nil: monitor only), judges the SPEC.
 func runTkHistory(r *h.Report, d *h.Driver, ev *tkEvents, base int, facts string, ops []string, st *tkStats) {
@@ -340,9 +388,12 @@ func runTkHistory(r *h.Report, d *h.Driver, ev *tkEvents, base int, facts string
 		if a := d.Ask("facts " + facts); a != "facts" {
 			panic("drv_tdk facts: " + a)
 		}
+		if a := d.Ask(w.ctxLine()); a != "ctx" {
+			panic("drv_tdk ctx: " + a)
+		}
 	}
 	var done []string
-	for _, op := range ops {
+	for opIdx, op := range ops {
 		f := strings.Fields(op)
 		if len(f) == 0 {
 			continue
@@ -352,6 +403,7 @@ func runTkHistory(r *h.Report, d *h.Driver, ev *tkEvents, base int, facts string
 		st.ops++
 		if w.shared() {
 			st.sharedOps++
+			w.everShared = true
 		}
 		var impl, mdl string
 		switch f[0] {
@@ -451,8 +503,48 @@ func runTkHistory(r *h.Report, d *h.Driver, ev *tkEvents, base int, facts string
 				known = regexpEntityKnown(w, k, ent)
 			}
 			ev.take()
+			// `dropent k ent @<kind>:<idx>`: the connection of the SAME peer is removed while its entity-removed notification is
+			// being processed — RemoveRemoteDeviceConnection(k) is started by a core-level event handler at the idx-th removal
+			// event of that kind (entity-, sub-, bind-) the notification publishes. Judged after BOTH have returned, as the
+			// teardown of the device (every interleaving must end where the sequential teardown ends: Props.C10Keys
+			// c10k_entity_pass_device_teardown_commute).
+			both := f[0] == "dropent" && len(f) > 3 && strings.HasPrefix(f[3], "@")
+			var tdDone chan struct{}
+			if both {
+				kindIdx := strings.SplitN(f[3][1:], ":", 2)
+				idx := 0
+				if len(kindIdx) == 2 {
+					idx, _ = strconv.Atoi(kindIdx[1])
+				}
+				tdDone = make(chan struct{})
+				tkCore.arm(kindIdx[0], idx, func() {
+					go func() {
+						w.l.RemoveRemoteDeviceConnection(tkSki(k))
+						close(tdDone)
+					}()
+					// Publish is serialised (the bus holds its handling lock while this handler runs): the teardown runs until
+					// its first own Publish and waits there. Condition-based, bounded wait: the device has left the map of
+					// connected devices (the teardown had nothing to publish before that point — the window the notification's
+					// remaining clean-up must cope with), or the bound ran out (the teardown is waiting at a Publish, or — on a
+					// loaded machine — has not been scheduled: either way not a failure, the verdict is taken after both returned)
+					for t0 := time.Now(); time.Since(t0) < 20*time.Millisecond; {
+						if w.l.RemoteDeviceForSki(tkSki(k)) == nil {
+							st.insideWindow++
+							break
+						}
+						runtime.Gosched()
+						if time.Since(t0) > 2*time.Millisecond {
+							time.Sleep(200 * time.Microsecond)
+						}
+					}
+				})
+			}
 			if f[0] == "drop" {
 				w.l.RemoveRemoteDeviceConnection(tkSki(k))
+				if w.alive[k] && w.wr[k] != nil {
+					w.old = append(w.old, tkOldWriter{k, w.wr[k]})
+					delete(w.wr, k)
+				}
 				w.alive[k] = false
 			} else {
 				removed := model.NetworkManagementStateChangeTypeRemoved
@@ -463,10 +555,34 @@ func runTkHistory(r *h.Report, d *h.Driver, ev *tkEvents, base int, facts string
 				w.inject(k, model.DatagramType{Header: model.HeaderType{AddressSource: h.FA(tkDev(w.dev[k]), []uint{0}, 0), AddressDestination: h.FA("HEMS", []uint{0}, 0),
 					MsgCounter: util.Ptr(model.MsgCounterType(w.ctr[k])), CmdClassifier: &nc}, Payload: model.PayloadType{Cmd: []model.CmdType{cmd}}})
 			}
+			if both {
+				st.injectedDrops++
+				if _, fired := tkCore.disarm(); !fired {
+					// the event point does not exist in this run (nothing of that kind was published): the teardown follows
+					w.l.RemoveRemoteDeviceConnection(tkSki(k))
+					close(tdDone)
+				} else {
+					st.injectedFired++
+				}
+				select {
+				case <-tdDone:
+				case <-time.After(5 * time.Second):
+					r.SpecFail("C10/keys-teardown-blocked-inside-entity-removal", done, fmt.Sprintf("RemoveRemoteDeviceConnection(%d), started at %s of its own entity-removed notification, had not returned 5 s after the notification", k, f[3]))
+				}
+				if w.wr[k] != nil {
+					w.old = append(w.old, tkOldWriter{k, w.wr[k]})
+					delete(w.wr, k)
+				}
+				w.alive[k] = false
+			}
 			h.Settle(w.base)
 			evs := ev.take()
 			impl = tkSet(evs)
-			mdl = ask(op)
+			if both {
+				mdl = ask(fmt.Sprintf("dropentdrop %d %s", k, ent))
+			} else {
+				mdl = ask(op)
+			}
 			if shared {
 				// outside the assumption (two connections announce one address) a removal event describes the clean-up's
 				// TARGET (its connection, its feature object), not the entry that went: compared by kind and local feature only
@@ -483,6 +599,12 @@ func runTkHistory(r *h.Report, d *h.Driver, ev *tkEvents, base int, facts string
 				impl, mdl = strip(impl), strip(mdl)
 			}
 			st.drops++
+			// SPEC view of the pending approvals: those of the removed device / of the removed entity are gone
+			for _, a := range w.appr {
+				if a.live && a.k == k && wasAlive && (f[0] == "drop" || both || (known && ent != "0" && a.ent == ent)) {
+					a.live, a.why = false, op
+				}
+			}
 			// ---- SPEC (model-free), judged under the assumption of C10: distinct device addresses
 			if !shared {
 				postS, postB, postCS, postCB, postC := w.observe()
@@ -491,9 +613,12 @@ func runTkHistory(r *h.Report, d *h.Driver, ev *tkEvents, base int, facts string
 				var refersE func(string) bool
 				var refersB func(string) bool
 				var expEv []string
-				if f[0] == "drop" {
+				if f[0] == "drop" || both {
 					refersE = func(x string) bool { return wasAlive && strings.Contains(x, conn) }
 					refersB = func(x string) bool { return wasAlive && strings.HasPrefix(x, devp) }
+					if both && known && ent != "0" {
+						expEv = append(expEv, fmt.Sprintf("E%d:%s", k, ent))
+					}
 				} else {
 					effective := known && ent != "0"
 					refersE = func(x string) bool {
@@ -535,7 +660,7 @@ func runTkHistory(r *h.Report, d *h.Driver, ev *tkEvents, base int, facts string
 				for _, x := range goneB {
 					expEv = append(expEv, "B"+x)
 				}
-				if f[0] == "drop" {
+				if f[0] == "drop" || both {
 					expEv = append(expEv, fmt.Sprintf("D%d", k))
 				}
 				if tkSet(evs) != tkSet(expEv) {
@@ -543,7 +668,7 @@ func runTkHistory(r *h.Report, d *h.Driver, ev *tkEvents, base int, facts string
 				}
 				postRes := w.resolve()
 				for i, line := range postRes {
-					mine := f[0] == "drop" && wasAlive && (strings.HasPrefix(line, fmt.Sprintf("ski %d=", k)) || strings.HasPrefix(line, fmt.Sprintf("addr %d=", w.dev[k])))
+					mine := (f[0] == "drop" || both) && wasAlive && (strings.HasPrefix(line, fmt.Sprintf("ski %d=", k)) || strings.HasPrefix(line, fmt.Sprintf("addr %d=", w.dev[k])))
 					if mine && !strings.HasSuffix(line, "=-") {
 						r.SpecFail("C10/keys-removed-device-still-resolves", done, fmt.Sprintf("after %s: %s", op, line))
 					}
@@ -551,35 +676,433 @@ func runTkHistory(r *h.Report, d *h.Driver, ev *tkEvents, base int, facts string
 						r.SpecFail("C10/keys-other-device-resolution-changed", done, fmt.Sprintf("after %s: %s, before: %s", op, line, preRes[i]))
 					}
 				}
-				if f[0] == "dropent" {
+				if f[0] == "dropent" && !both {
 					if tkSet(postC) == tkSet(preC) && known && ent != "0" {
 						r.SpecFail("C10/keys-removed-entity-still-known", done, fmt.Sprintf("after %s the connections are %s", op, tkSet(postC)))
 					}
 				}
 			}
+		case "pwrite":
+			k := atoi(1)
+			// (shared device addresses: the write gate compares the client feature's ADDRESS — outside the assumption and the model)
+			if !w.alive[k] || w.everShared || w.shared() {
+				continue
+			}
+			impl, mdl = w.pwrite(r, ask, k, done, st)
+			if impl == "" {
+				continue
+			}
+		case "verdict":
+			if len(w.appr) == 0 || w.everShared {
+				continue
+			}
+			impl, mdl = w.verdict(r, ask, w.appr[atoi(1)%len(w.appr)], len(f) > 2 && f[2] == "deny", done, st)
+		case "sweep":
+			if len(w.appr) == 0 || w.everShared {
+				continue
+			}
+			var is, ms []string
+			for _, a := range w.appr {
+				i, m := w.verdict(r, ask, a, false, done, st)
+				is, ms = append(is, i), append(ms, m)
+			}
+			impl, mdl = strings.Join(is, " "), strings.Join(ms, " ")
+			if d == nil {
+				mdl = ""
+			}
 		default:
 			continue
 		}
 		r.Eval(f[0], "")
-		if d == nil {
-			continue
+		if d != nil {
+			if impl != mdl {
+				mismatch(done, impl, mdl, "answer of "+op)
+			} else {
+				s1, s2, s3, s4, s5 := w.observe()
+				if is, ms := tkState(s1, s2, s3, s4, s5), d.Ask("state"); is != ms {
+					mismatch(done, is, ms, "state after "+op)
+				} else if ir, mr := strings.Join(w.resolve(), " "), strings.Join(tkModelResolve(d), " "); ir != mr {
+					mismatch(done, ir, mr, "resolution after "+op)
+				}
+			}
 		}
-		if impl != mdl {
-			mismatch(done, impl, mdl, "answer of "+op)
-			continue
+		if w.shared() {
+			w.everShared = true
 		}
-		s1, s2, s3, s4, s5 := w.observe()
-		if is, ms := tkState(s1, s2, s3, s4, s5), d.Ask("state"); is != ms {
-			mismatch(done, is, ms, "state after "+op)
-			continue
+		// (worlds in which two connections announce(d) one device address are outside the assumption AND outside the
+		// composed model: the write gate compares the client feature's ADDRESS, so a sharer passes the other's binding)
+		if (f[0] == "drop" || f[0] == "dropent") && !w.everShared {
+			// "every other peer continues to be served": requests of every other connection, answered by the real stack and
+			// by the composed model Spine.TdS (world of the TdK state + dispatch model); SPEC judged on the observed registries
+			w.serveOthers(r, func() *h.Driver { return d }, mismatch, atoi(1), opIdx, done, st)
+			if d != nil {
+				s1, s2, s3, s4, s5 := w.observe()
+				if is, ms := tkState(s1, s2, s3, s4, s5), d.Ask("state"); is != ms {
+					mismatch(done, is, ms, "state after the requests of the other peers that followed "+op)
+				}
+			}
 		}
-		if ir, mr := strings.Join(w.resolve(), " "), strings.Join(tkModelResolve(d), " "); ir != mr {
-			mismatch(done, ir, mr, "resolution after "+op)
-			continue
+	}
+	// at the end of every history: the verdict for every write the approval callback ever received
+	if len(w.appr) > 0 && !w.everShared {
+		var is, ms []string
+		for _, a := range w.appr {
+			i, m := w.verdict(r, ask, a, false, append(done, "(final sweep)"), st)
+			is, ms = append(is, i), append(ms, m)
+		}
+		if d != nil && strings.Join(is, " ") != strings.Join(ms, " ") {
+			mismatch(append(done, "sweep"), strings.Join(is, " "), strings.Join(ms, " "), "verdicts of the final sweep")
 		}
 	}
 	if agreed {
 		r.Traces++
+	}
+}
+
+// ---------- pending write approvals
+
+func (w *tkWorld) takeCb() []*api.Message {
+	w.cbMu.Lock()
+	defer w.cbMu.Unlock()
+	m := w.cbMsgs
+	w.cbMsgs = nil
+	return m
+}
+
+// pwrite: connection k writes (acknowledgement requested) to a local server feature with an approval callback — from a
+// client feature the OBSERVED bindings authorise for [3] or [4] if there is one, else from its first entity to [3].
+// impl: "pending <epoch>" (the callback received the write, nothing was answered) or "denied" (error result).
+func (w *tkWorld) pwrite(r *h.Report, ask func(string) string, k int, done []string, st *tkStats) (impl, mdl string) {
+	dispInit()
+	fn := dispFnID[dispFnLimit]
+	_, preB, _, _, _ := w.observe()
+	ent, cf, se := "", uint(1), "3"
+	for _, b := range preB {
+		i := strings.Index(b, "<-")
+		cl := strings.Split(b[i+2:], ":")
+		if (strings.HasPrefix(b, "3/") || strings.HasPrefix(b, "4/")) && len(cl) == 3 && cl[0] == strconv.Itoa(k) {
+			ef := strings.Split(cl[2], "/")
+			n, _ := strconv.Atoi(ef[1])
+			ent, cf, se = ef[0], uint(n), b[:1]
+			break
+		}
+	}
+	bound := ent != ""
+	if !bound {
+		for _, e := range tkBookEnts {
+			if regexpEntityKnown(w, k, e) {
+				ent = e
+				break
+			}
+		}
+		if ent == "" {
+			return "", ""
+		}
+	}
+	srv := w.srv[se]
+	w.pw[k]++
+	ctr := uint64(500 + w.pw[k]) // restarts with every connection of the SKI: a re-connection reuses the counters
+	w.valN++
+	cmd := dispCmd(fn, w.valN, false)
+	cls, ack := model.CmdClassifierTypeWrite, true
+	w.drain()
+	w.takeCb()
+	w.inject(k, model.DatagramType{Header: model.HeaderType{AddressSource: h.FA(tkDev(w.dev[k]), regParseEnt(ent), cf), AddressDestination: h.FA("HEMS", regParseEnt(se), uint(*srv.Feature)),
+		MsgCounter: util.Ptr(model.MsgCounterType(ctr)), CmdClassifier: &cls, AckRequest: &ack}, Payload: model.PayloadType{Cmd: []model.CmdType{cmd}}})
+	h.Settle(w.base)
+	w.ev.take()
+	outs, _ := w.outputs()
+	cbs := w.takeCb()
+	st.pwrites++
+	switch {
+	case len(cbs) == 1 && len(outs) == 0:
+		impl = fmt.Sprintf("pending %d", w.epoch[k])
+		w.appr = append(w.appr, &tkAppr{msg: cbs[0], k: k, epoch: w.epoch[k], ctr: ctr, ent: ent, se: se, live: true})
+		st.pwritesPending++
+	case len(cbs) == 0 && len(outs) == 1 && strings.Contains(outs[0], fmt.Sprintf("%d>result:%d:", k, ctr)) && !strings.Contains(outs[0], fmt.Sprintf("result:%d:0:", ctr)):
+		impl = "denied"
+	default:
+		impl = fmt.Sprintf("callbacks=%d outputs=%s", len(cbs), tkSet(outs))
+	}
+	if !w.everShared {
+		want := "denied"
+		if bound {
+			want = fmt.Sprintf("pending %d", w.epoch[k])
+		}
+		if impl != want {
+			r.SpecFail("C10/keys-other-peer-not-served", done, fmt.Sprintf("write of connection %d (client %s/%d) to %s, which asks the application: %s, expected %s (bound by the observed bindings: %v)", k, ent, cf, h.AddrS(srv), impl, want, bound))
+		}
+	}
+	mdl = ask(fmt.Sprintf("pwrite %d %d %s %d %s %d", k, ctr, ent, cf, se, *srv.Feature))
+	return
+}
+
+// verdict: the application's verdict for a write the callback received earlier (of whichever connection epoch).
+// impl: "taken" (a result referring to the write was sent) or "ignored" (nothing was written).
+func (w *tkWorld) verdict(r *h.Report, ask func(string) string, a *tkAppr, deny bool, done []string, st *tkStats) (impl, mdl string) {
+	srv := w.srv[a.se]
+	fl := w.l.FeatureByAddress(srv)
+	w.drain()
+	e := model.ErrorType{ErrorNumber: 0}
+	if deny {
+		e = model.ErrorType{ErrorNumber: 7}
+	}
+	_ = h.Recover(func() { fl.ApproveOrDenyWrite(a.msg, e) })
+	h.Settle(w.base)
+	w.ev.take()
+	outs, toOld := w.outputs()
+	impl = "ignored"
+	for _, o := range outs {
+		if strings.Contains(o, fmt.Sprintf(">result:%d:", a.ctr)) {
+			impl = "taken"
+		}
+	}
+	st.verdicts++
+	what := fmt.Sprintf("verdict for the write %d of connection %d (epoch %d, entity %s) pending on %s", a.ctr, a.k, a.epoch, a.ent, h.AddrS(srv))
+	if len(toOld) > 0 {
+		r.SpecFail("C10/keys-datagram-to-removed-connection", done, fmt.Sprintf("%s: written to a removed connection: %s", what, tkSet(toOld)))
+	}
+	if !w.everShared {
+		switch {
+		case impl == "taken" && !a.live && a.why != "verdict":
+			r.SpecFail("C10/keys-pending-approval-survives-teardown", done, fmt.Sprintf("%s: taken although the approval went with %q (outputs %s)", what, a.why, tkSet(outs)))
+		case impl == "taken" && !a.live:
+			r.SpecFail("C10/keys-verdict-taken-twice", done, fmt.Sprintf("%s: taken a second time (outputs %s)", what, tkSet(outs)))
+		case impl == "ignored" && a.live:
+			r.SpecFail("C10/keys-pending-approval-of-other-lost", done, fmt.Sprintf("%s: ignored although no teardown referred to that device or entity", what))
+		}
+	}
+	if impl == "taken" {
+		st.verdictsTaken++
+		if a.live {
+			a.live, a.why = false, "verdict"
+		}
+	}
+	mdl = ask(fmt.Sprintf("verdict %d %d %d %s %d", a.k, a.epoch, a.ctr, a.se, *srv.Feature))
+	return
+}
+
+// ---------- "continues to be served": requests of the other peers after a teardown
+
+var tkAnyErr = regexp.MustCompile(`(>result:\d+:)[1-9]\d*:`)
+
+func (w *tkWorld) ctxLine() string {
+	dispInit()
+	var sf []string
+	for i := 1; i <= 4; i++ {
+		sf = append(sf, strconv.Itoa(int(*w.srv[strconv.Itoa(i)].Feature)))
+	}
+	return fmt.Sprintf("ctx %d %d %s %s %d", dispFnID[dispFnLimit], dispTypeID[model.FeatureTypeTypeLoadControl],
+		dispCSV(dispFds(model.FeatureTypeTypeLoadControl)), strings.Join(sf, " "), *w.cl.Address().Feature)
+}
+
+func (w *tkWorld) drain() {
+	for _, x := range w.wr {
+		x.Take()
+	}
+	for _, o := range w.old {
+		o.w.Take()
+	}
+}
+
+// valOf: the value id of a limit-list payload (0 = never written; -1 = a list no write of this history carried)
+func (w *tkWorld) valOf(payload string) int {
+	var got model.LoadControlLimitListDataType
+	if err := json.Unmarshal([]byte(payload), &got); err != nil || len(got.LoadControlLimitData) == 0 {
+		return 0
+	}
+	b, _ := json.Marshal(got)
+	if v, ok := w.vals[string(b)]; ok {
+		return v
+	}
+	return -1
+}
+
+// outputs: everything the stack wrote since the last drain, per connection, in the format of drv_tdk's showOuts;
+// toOld: what was written to writers of removed connections
+func (w *tkWorld) outputs() (all []string, toOld []string) {
+	show := func(k int, m []byte) string {
+		o := dispParseOut(m)
+		switch o.kind {
+		case "reply":
+			return fmt.Sprintf("%d>reply:%s:%d:%s:%s:v%d", k, o.refS(), o.fn, h.AddrS(o.src), h.AddrS(o.dst), w.valOf(o.payload))
+		case "result":
+			return fmt.Sprintf("%d>result:%s:%d:%s:%s", k, o.refS(), o.err, h.AddrS(o.src), h.AddrS(o.dst))
+		case "notify":
+			return fmt.Sprintf("%d>notify:%d:%s:%s:v%d", k, o.fn, h.AddrS(o.src), h.AddrS(o.dst), w.valOf(o.payload))
+		case "readReq":
+			return fmt.Sprintf("%d>readReq:%d:%s:%s", k, o.fn, h.AddrS(o.src), h.AddrS(o.dst))
+		}
+		return fmt.Sprintf("%d>other:%s", k, o.kind)
+	}
+	for k := 1; k <= tkNConn; k++ {
+		if x := w.wr[k]; x != nil {
+			for _, m := range x.Take() {
+				all = append(all, show(k, m))
+			}
+		}
+	}
+	for _, o := range w.old {
+		for _, m := range o.w.Take() {
+			all = append(all, show(o.k, m))
+			toOld = append(toOld, show(o.k, m))
+		}
+	}
+	return
+}
+
+// serveOthers: after a teardown about connection k, every other connected peer q (after an entity removal also k itself,
+// from its remaining entities) sends a read, a write and a
+// subscription request (as real datagrams through HandleSpineMesssage). Compared with the composed model (drv_tdk `dg`
+// / `call`); SPEC (model-free, distinct device addresses): the read is answered with one reply carrying the value of the
+// last accepted write, the write is accepted iff the OBSERVED bindings hold (server feature <- q's client feature) and
+// then notifies exactly the OBSERVED subscribers of that server feature, the subscription request is granted iff the
+// OBSERVED subscriptions do not hold it yet; nothing is written to a removed connection.
+func (w *tkWorld) serveOthers(r *h.Report, drv func() *h.Driver, mismatch func([]string, string, string, string), k, opIdx int, done []string, st *tkStats) {
+	dispInit()
+	fn := dispFnID[dispFnLimit]
+	typ := dispTypeID[model.FeatureTypeTypeLoadControl]
+	shared := false
+	for q := 1; q <= tkNConn; q++ {
+		// every OTHER connected peer — and, after an entity removal, the SAME peer from the entities it still has
+		// ("all and only what refers to that entity": Props.C10Serve.c10s_entity_same_device_served)
+		if !w.alive[q] {
+			continue
+		}
+		var ents []string
+		for _, e := range tkBookEnts {
+			if regexpEntityKnown(w, q, e) {
+				ents = append(ents, e)
+			}
+		}
+		if len(ents) == 0 {
+			continue
+		}
+		dev := tkDev(w.dev[q])
+		ent := ents[(opIdx+q)%len(ents)]
+		cf := uint(1 + (opIdx+q)%2)
+		se := strconv.Itoa(1 + (opIdx+q)%4)
+		seW := strconv.Itoa(1 + (opIdx+q)%2) // writes and reads go to the server features without approval callback
+		_, preB, _, _, _ := w.observe()
+		// prefer a write from a client feature of q that the observed bindings authorise (three times out of four)
+		wEnt, wCf, wSe := ent, cf, seW
+		if opIdx%4 != 0 {
+			for _, b := range preB {
+				i := strings.Index(b, "<-")
+				if strings.HasPrefix(b, "3/") || strings.HasPrefix(b, "4/") {
+					continue
+				}
+				cl := strings.Split(b[i+2:], ":") // q, dev, ent/feat
+				if len(cl) == 3 && cl[0] == strconv.Itoa(q) {
+					ef := strings.Split(cl[2], "/")
+					n, _ := strconv.Atoi(ef[1])
+					wEnt, wCf, wSe = ef[0], uint(n), strings.Split(b[:i], "/")[0]
+					break
+				}
+			}
+		}
+		type req struct {
+			kind, ent string
+			cf        uint
+			se        string
+		}
+		for _, rq := range []req{{"write", wEnt, wCf, wSe}, {"read", ent, cf, wSe}, {"sub", ent, cf, se}} {
+			srv := w.srv[rq.se]
+			cAddr := h.FA(dev, regParseEnt(rq.ent), rq.cf)
+			w.ctr[q]++
+			ctr := w.ctr[q]
+			preS, preB, _, _, _ := w.observe()
+			w.drain()
+			w.ev.take()
+			var line string
+			v := 0
+			ack := true
+			switch rq.kind {
+			case "read", "write":
+				cls := model.CmdClassifierTypeRead
+				cmd := dispCmd(fn, 0, false)
+				if rq.kind == "write" {
+					cls = model.CmdClassifierTypeWrite
+					w.valN++
+					v = w.valN
+					cmd = dispCmd(fn, v, false)
+					b, _ := json.Marshal(cmd.LoadControlLimitListData)
+					w.vals[string(b)] = v
+				}
+				hd := model.HeaderType{AddressSource: cAddr, AddressDestination: h.FA("HEMS", regParseEnt(rq.se), uint(*srv.Feature)),
+					MsgCounter: util.Ptr(model.MsgCounterType(ctr)), CmdClassifier: &cls}
+				if rq.kind == "write" {
+					hd.AckRequest = &ack
+				}
+				w.inject(q, model.DatagramType{Header: hd, Payload: model.PayloadType{Cmd: []model.CmdType{cmd}}})
+				line = fmt.Sprintf("dg %d %s %s %d %s %d %d %d %d %d", q, rq.kind, rq.ent, rq.cf, rq.se, *srv.Feature, fn, ctr, h.B2i(rq.kind == "write"), v)
+			case "sub":
+				cls := model.CmdClassifierTypeCall
+				cmd := model.CmdType{NodeManagementSubscriptionRequestCall: spine.NewNodeManagementSubscriptionRequestCallType(cAddr, h.FA("HEMS", regParseEnt(rq.se), uint(*srv.Feature)), model.FeatureTypeTypeLoadControl)}
+				w.inject(q, model.DatagramType{Header: model.HeaderType{AddressSource: h.FA(dev, []uint{0}, 0), AddressDestination: h.FA("HEMS", []uint{0}, 0),
+					MsgCounter: util.Ptr(model.MsgCounterType(ctr)), CmdClassifier: &cls, AckRequest: &ack}, Payload: model.PayloadType{Cmd: []model.CmdType{cmd}}})
+				line = fmt.Sprintf("call %d sub %s %d %s %d %d %d 1", q, rq.ent, rq.cf, rq.se, *srv.Feature, typ, ctr)
+			}
+			h.Settle(w.base)
+			w.ev.take()
+			outs, toOld := w.outputs()
+			impl := tkSet(outs)
+			st.served++
+			r.Eval("serve-"+rq.kind, "")
+			what := fmt.Sprintf("%s of connection %d (client %s/%d, server %s) after the teardown about connection %d", rq.kind, q, rq.ent, rq.cf, h.AddrS(srv), k)
+			if len(toOld) > 0 {
+				r.SpecFail("C10/keys-datagram-to-removed-connection", done, fmt.Sprintf("%s: written to a removed connection: %s", what, tkSet(toOld)))
+			}
+			if !shared {
+				// ---- SPEC from the observed registries alone
+				client := fmt.Sprintf("%d:%s:%s/%d", q, tkNum(dev, "dev"), rq.ent, rq.cf)
+				entry := h.AddrS(srv) + "<-" + client
+				has := func(l []string) bool {
+					for _, x := range l {
+						if x == entry {
+							return true
+						}
+					}
+					return false
+				}
+				var exp []string
+				switch rq.kind {
+				case "read":
+					exp = []string{fmt.Sprintf("%d>reply:%d:%d:%s:%s/%d:v%d", q, ctr, fn, h.AddrS(srv), rq.ent, rq.cf, w.last[h.AddrS(srv)])}
+				case "write":
+					if has(preB) {
+						st.servedWriteOk++
+						w.last[h.AddrS(srv)] = v
+						exp = []string{fmt.Sprintf("%d>result:%d:0:%s:%s/%d", q, ctr, h.AddrS(srv), rq.ent, rq.cf)}
+						for _, x := range preS {
+							if strings.HasPrefix(x, h.AddrS(srv)+"<-") {
+								cl := strings.Split(x[strings.Index(x, "<-")+2:], ":")
+								exp = append(exp, fmt.Sprintf("%s>notify:%d:%s:%s:v%d", cl[0], fn, h.AddrS(srv), cl[2], v))
+								st.servedNotified++
+							}
+						}
+					} else {
+						exp = []string{fmt.Sprintf("%d>result:%d:1:%s:%s/%d", q, ctr, h.AddrS(srv), rq.ent, rq.cf)}
+					}
+				case "sub":
+					e := 1
+					if !has(preS) {
+						e = 0
+						st.servedSubOk++
+					}
+					exp = []string{fmt.Sprintf("%d>result:%d:%d:0/0:0/0", q, ctr, e)}
+				}
+				// the SPEC does not prescribe WHICH error number refuses
+				if tkAnyErr.ReplaceAllString(impl, "${1}1:") != tkSet(exp) {
+					r.SpecFail("C10/keys-other-peer-not-served", done, fmt.Sprintf("%s: the stack wrote %s, expected %s", what, impl, tkSet(exp)))
+				}
+			}
+			if d := drv(); d != nil {
+				if mdl := d.Ask(line); mdl != impl {
+					mismatch(done, impl, mdl, "outputs for the "+what+" ("+line+")")
+				}
+			}
+		}
 	}
 }
 
@@ -649,23 +1172,31 @@ func genTkHistory(rng regRng, n int, shared bool) []string {
 	ents := []string{"1", "1", "1.1", "2"}
 	for len(ops) < n {
 		switch x := rng.Intn(100); {
-		case x < 34:
+		case x < 28:
 			ops = append(ops, fmt.Sprintf("sub %d %s %d %d 1", pick(), ents[rng.Intn(len(ents))], 1+rng.Intn(2), 1+rng.Intn(3)))
-		case x < 52:
+		case x < 46:
 			se := strconv.Itoa(1 + rng.Intn(4))
 			if bound[se] && rng.Intn(4) != 0 {
 				continue
 			}
 			bound[se] = true
 			ops = append(ops, fmt.Sprintf("bind %d %s %d %s 1", pick(), ents[rng.Intn(len(ents))], 1+rng.Intn(2), se))
-		case x < 66:
+		case x < 56:
 			k := pick()
 			kind := "csub"
 			if rng.Intn(2) == 0 {
 				kind = "cbind"
 			}
 			ops = append(ops, fmt.Sprintf("%s %d %s", kind, alive[k]+h.B2i(rng.Intn(10) == 0), tkBookEnts[rng.Intn(len(tkBookEnts))]))
-		case x < 78:
+		case x < 66:
+			ops = append(ops, fmt.Sprintf("pwrite %d", pick()))
+		case x < 70:
+			v := "ok"
+			if rng.Intn(3) == 0 {
+				v = "deny"
+			}
+			ops = append(ops, fmt.Sprintf("verdict %d %s", rng.Intn(8), v))
+		case x < 81:
 			k := pick()
 			if rng.Intn(8) == 0 {
 				k = 1 + rng.Intn(tkNConn)
@@ -677,9 +1208,20 @@ func genTkHistory(rng regRng, n int, shared bool) []string {
 					delete(bound, se)
 				}
 			}
-		case x < 90:
+		case x < 91:
 			e := []string{"1", "1.1", "2", "0", "3"}[rng.Intn(5)]
-			ops = append(ops, fmt.Sprintf("dropent %d %s", pick(), e))
+			k := pick()
+			if rng.Intn(3) == 0 {
+				// the same peer's connection is removed WHILE this notification is processed, at one of its removal events
+				at := []string{"entity-:0", "entity-:0", "sub-:0", "sub-:1", "bind-:0"}[rng.Intn(5)]
+				ops = append(ops, fmt.Sprintf("dropent %d %s @%s", k, e, at))
+				delete(alive, k)
+			} else {
+				ops = append(ops, fmt.Sprintf("dropent %d %s", k, e))
+			}
+			if rng.Intn(2) == 0 {
+				ops = append(ops, "sweep")
+			}
 		default:
 			k := 1 + rng.Intn(tkNConn)
 			if _, ok := alive[k]; ok {
@@ -714,7 +1256,18 @@ var tkCorpus = [][]string{
 	{"connect 1 101", "connect 3 101", "sub 1 1 1 1 1", "sub 3 1 1 1 1", "bind 3 1 1 1 1", "csub 101 1", "drop 1"},
 	{"connect 1 101", "connect 3 101", "sub 1 1 1 1 1", "sub 3 1 1 1 1", "bind 3 1 1 1 1", "cbind 101 1.1", "dropent 1 1", "drop 3"},
 	{"connect 2 102", "drop 4", "drop 2", "drop 2", "connect 2 103", "sub 2 2 2 4 1", "drop 2"},
+	// pending approvals: two connections with identical numbering and identical counters; teardown of one; re-connection under
+	// the same SKI reusing the counter (the verdict for the old connection's message must be ignored, the new one taken)
+	{"connect 1 101", "connect 2 102", "bind 1 1 1 3 1", "bind 2 1 1 4 1", "pwrite 1", "pwrite 2", "pwrite 1", "drop 1", "sweep", "connect 1 101", "bind 1 1 1 3 1", "pwrite 1", "pwrite 2", "verdict 0 ok", "verdict 3 ok", "dropent 2 1", "sweep"},
+	{"connect 1 101", "connect 2 102", "bind 1 2 1 3 1", "bind 2 1 1 4 1", "pwrite 1", "pwrite 2", "dropent 1 1", "verdict 0 ok", "dropent 1 2", "verdict 0 deny", "verdict 1 deny", "pwrite 1"},
+	// the connection is removed while its own entity-removed notification is processed (at the entity event, at a registry event)
+	{"connect 1 101", "connect 2 102", "sub 1 1 1 1 1", "bind 1 1 1 2 1", "sub 1 2 1 1 1", "sub 2 1 1 1 1", "csub 101 1", "csub 101 2", "dropent 1 1 @entity-:0", "bind 2 1 1 2 1", "sub 2 1 2 1 1"},
+	{"connect 1 101", "connect 2 102", "sub 1 1 1 1 1", "sub 1 1 2 3 1", "bind 1 1 1 2 1", "bind 1 2 1 3 1", "pwrite 1", "sub 2 1 1 1 1", "dropent 1 1 @sub-:1", "sweep", "connect 1 101", "sub 1 1 1 1 1"},
+	{"connect 1 101", "connect 2 102", "bind 1 1 1 2 1", "sub 1 1.1 1 1 1", "dropent 1 1 @bind-:0", "dropent 2 3 @entity-:0", "bind 2 1 1 2 1"},
 }
+
+// tkCore: core-level event handler that starts an injected teardown at a chosen removal event (see `dropent … @kind:idx`)
+var tkCore = &regCoreHandler{}
 
 func TestTeardownKeys(t *testing.T) {
 	r := h.NewReport("teardown-keys", "histories over up to 4 connections with identical entity / feature numbering (distinct device addresses, and — compared with the model only — two connections announcing one address): granted subscriptions and bindings, client-side subscriptions / bindings of a local client feature, RemoveRemoteDeviceConnection (also of unknown / already removed connections), entity-removed notifications ([0], unknown, nested), re-connections (also under a new address); after every op the registries with (connection, device address, entity, feature) of each entry, the bookkeeping, the connected devices with their entities, the removal events with their contents and RemoteDeviceForSki / RemoteDeviceForAddress for every connection and address are compared with Spine.TdK built from the comparisons the translator derived from this tree; model-free SPEC monitor for the all-and-only, event and resolution clauses; non-trivial = a history (distinct by op text) that agreed to its end")
@@ -722,6 +1275,8 @@ func TestTeardownKeys(t *testing.T) {
 	ev := &tkEvents{}
 	_ = spine.Events.Subscribe(ev)
 	defer func() { _ = spine.Events.Unsubscribe(ev) }()
+	_ = spine.VerifSubscribeCore(tkCore)
+	defer func() { _ = spine.VerifUnsubscribeCore(tkCore) }()
 	d := h.StartDriver("drv_tdk")
 	defer d.Close()
 	base := h.Baseline()
@@ -756,6 +1311,12 @@ func TestTeardownKeys(t *testing.T) {
 		r.Floor("granted share of subscription / binding requests", st.grantOk, st.grants, 0.45)
 		r.Floor("teardowns that removed entries while entries of others stayed (distinct addresses)", st.dropsNontrivial, st.drops, 0.10)
 		r.Floor("ops in worlds with a shared device address", st.sharedOps, st.ops, 0.03)
+		r.Floor("requests of other peers after a teardown: writes the observed bindings authorise (accepted)", st.servedWriteOk, st.served, 0.02)
+		r.Floor("writes to a feature with approval callback that became pending", st.pwritesPending, st.pwrites, 0.10)
+		r.Floor("verdicts taken", st.verdictsTaken, st.verdicts, 0.10)
+		r.Floor("connection removals injected into the peer's own entity-removed notification: event point reached", st.injectedFired, st.injectedDrops, 0.25)
+		r.Floor("… of those, the device had left the map of connected devices inside the event window", st.insideWindow, st.injectedFired, 0.03)
+		r.Floor("requests of other peers after a teardown: subscription requests granted", st.servedSubOk, st.served, 0.05)
 	}
 	rerun := func(q *h.Report, ops []string) { runTkHistory(q, d, ev, base, facts, ops, &tkStats{}) }
 	regShrinkReport(r, rerun, map[string]bool{}, false)
